@@ -221,7 +221,7 @@ def run_unit(unit, rlimit=40, extra_args=(), text_override=None, tag=None):
         if m:
             for ln, (tr, meth, lab) in trait_labels.items():
                 if tr == m[0] and meth == m[1]:
-                    obl[(fid, lab)] = dict(fn=fid, label=lab, props=f["serves"], kind="trait_ensures", ok=True, msg=None)
+                    obl[(fid, lab)] = dict(fn=fid, label=lab, props=(f.get("tlprops") or {}).get(lab, f["serves"]), kind="trait_ensures", ok=True, msg=None)
 
     fatal = []
     for d in diags:
